@@ -82,3 +82,10 @@ Fixpoint wire_encode (hdr : nat) (t : dtype) (v : value) {struct t} : bytes :=
       if is_blob inner then wire_encode hdr inner v
       else let body := wire_encode hdr inner v in le_encode hdr (len body) ++ body
   end.
+
+(* consecutive values (method arguments) *)
+Fixpoint encode_seq (hdr : nat) (ts : list dtype) (vs : list value) : bytes :=
+  match ts, vs with
+  | t :: tr, v :: vr => wire_encode hdr t v ++ encode_seq hdr tr vr
+  | _, _ => []
+  end.
